@@ -63,7 +63,7 @@ def _src_hash(fn_specs):
 
 
 def _worker(args):
-    pid, tier, seed, idx = args
+    pid, tier, seed, idx, part = args
     sys.setrecursionlimit(10000)
     from symx.core import Explorer
 
@@ -73,7 +73,9 @@ def _worker(args):
         H = _load(pid)
         cases = H.cases(tier, seed)
         case = cases[idx]
-        res["name"] = case.name
+        res["name"] = case.name + (f"#{part[0]}" if part else "")
+        kw = dict(case.kw)
+        kw.pop("split", None)
         known = [e for e in load_known(pid) if e.get("status") == "known"]
         regions = {}
         for e in known:
@@ -84,7 +86,7 @@ def _worker(args):
             regions.setdefault(label, []).append((e["id"], builder))
         buf = io.StringIO()
         with redirect_stdout(buf):
-            ex = Explorer(case.body, name=case.name, known_regions=regions, **case.kw).run()
+            ex = Explorer(case.body, name=case.name, known_regions=regions, part=part, **kw).run()
         res["stats"] = ex.stats.as_dict()
         res["samples"] = ex.stats.samples
         res["incomplete"] = ex.incomplete
@@ -137,10 +139,19 @@ def run_check(pid, tier, seed, jobs):
     pre_info = {}
     if pre is not None:
         pre_info = pre(tier, seed) or {}
-    ncases = len(H.cases(tier, seed))
+    cs = H.cases(tier, seed)
+    tasks = []
+    for i, cse in enumerate(cs):
+        m = int(cse.kw.get("split", 0) or 0)
+        if m:
+            tasks += [(pid, tier, seed, i, (p, m)) for p in range(2**m)]
+        else:
+            tasks.append((pid, tier, seed, i, None))
+    # heavy (split) tasks first
+    tasks.sort(key=lambda t: 0 if t[4] else 1)
     ctx = mp.get_context("fork")
-    with ctx.Pool(min(jobs, max(1, ncases)), maxtasksperchild=8) as pool:
-        results = pool.map(_worker, [(pid, tier, seed, i) for i in range(ncases)], chunksize=1)
+    with ctx.Pool(min(jobs, max(1, len(tasks))), maxtasksperchild=8) as pool:
+        results = pool.map(_worker, tasks, chunksize=1)
     return H, results, pre_info, time.time() - t0
 
 
@@ -166,7 +177,7 @@ def summarise(pid, tier, seed, H, results, pre_info, wall):
             e["discharged"] += v["discharged"]
         if r["incomplete"]:
             incompl.append(f"{r['name']}: {r['incomplete']}")
-        if st["paths"] == 0:
+        if st["paths"] == 0 and "#" not in r["name"]:
             errors.append(f"{r['name']}: vacuous (0 completed paths)")
         cex_all.extend(r["cex"])
         known_hits.extend(r["known_hits"])
@@ -197,7 +208,7 @@ def summarise(pid, tier, seed, H, results, pre_info, wall):
         "number_model": getattr(H, "NUMBER_MODEL", "R (exact reals/ints)"),
         "bounds": H.bounds(tier) if hasattr(H, "bounds") else "",
         "outside_claim": getattr(H, "OUTSIDE", []),
-        "cases": len(results),
+        "cases": len({r["name"].split("#")[0] for r in results}),
         "states": tot["paths"],
         "transitions": tot["branch_decisions"],
         "traces_validated_against_impl": len(cex_all) + len(known_hits) + int(pre_info.get("validated", 0)),
